@@ -991,3 +991,57 @@ Proof.
   pose proof (size_accepted c ops Hh Hf) as H.
   destruct (run c (uw0, rec0) ops) as [[u r] p]. apply H.
 Qed.
+
+
+(* ------------------------------------------------------------------------------------------ *)
+(* D. the entry list of a request shares nothing with the rule table                              *)
+(* ------------------------------------------------------------------------------------------ *)
+Lemma list_max_ge (l : list nat) x : In x l -> (x <= list_max l)%nat.
+Proof.
+  induction l as [|y l IH]; intros H; [destruct H|]. simpl. destruct H as [<-|H]; [apply Nat.le_max_l|].
+  etransitivity; [exact (IH H)|apply Nat.le_max_r].
+Qed.
+Lemma nlook_in {A} k (l : list (nat * A)) v : nlook k l = Some v -> In k (map fst l).
+Proof.
+  induction l as [|[k' v'] l IH]; simpl; [discriminate|]. destruct (Nat.eqb k k') eqn:E; intros H.
+  - left. symmetry. apply Nat.eqb_eq. exact E.
+  - right. exact (IH H).
+Qed.
+Lemma fresh_addr_fresh (h : aheap) a cells : nlook a h = Some cells -> Nat.eqb a (fresh_addr h) = false.
+Proof.
+  intros H. apply Nat.eqb_neq. pose proof (list_max_ge _ _ (nlook_in _ _ _ H)). unfold fresh_addr. lia.
+Qed.
+
+(* the code as it is: computing the entry list of a request leaves EVERY array that existed - those of the rule
+   table, those of the other requests in flight - as it was, and the list reads as the entries of the matching
+   rules in rule order *)
+Theorem fresh_entry_list_shares_nothing (h : aheap) (ms : list gslice) :
+  let '(h', s) := entries_fresh h ms in
+  (forall a cells, nlook a h = Some cells -> nlook a h' = Some cells) /\
+  (forall t, (exists cells, nlook (sl_arr t) h = Some cells) -> sl_read h' t = sl_read h t) /\
+  sl_read h' s = concat (map (sl_read h) ms) /\
+  nlook (sl_arr s) h = None.
+Proof.
+  unfold entries_fresh. split; [|split; [|split]].
+  - intros a cells H. simpl. rewrite (fresh_addr_fresh _ _ _ H). exact H.
+  - intros t [cells H]. unfold sl_read. simpl. rewrite (fresh_addr_fresh _ _ _ H). reflexivity.
+  - unfold sl_read. simpl. rewrite Nat.eqb_refl. apply firstn_all.
+  - simpl. destruct (nlook (fresh_addr h) h) as [c|] eqn:E; [|reflexivity].
+    pose proof (fresh_addr_fresh _ _ _ E) as F. rewrite Nat.eqb_refl in F. discriminate.
+Qed.
+
+(* three logs on / (entries 0 1 2 in an array of capacity 4), one on /a (entry 3), one on /b (entry 4);
+   request 1 asks for /a/x, request 2 for /b/y; request 1 has computed its list and written nothing yet when
+   request 2 computes its own *)
+Definition ew_demo : eworld :=
+  {| ew_heap := [(0, [0; 1; 2; 9]); (1, [3]); (2, [4])]%nat; ew_slice := []; ew_logged := [] |}.
+Definition ew_sched : list eact :=
+  let sh := {| sl_arr := 0; sl_len := 3 |} in
+  [EACompute 1 [sh; {| sl_arr := 1; sl_len := 1 |}]; EACompute 2 [sh; {| sl_arr := 2; sl_len := 1 |}];
+   EALog 2; EALog 2; EALog 2; EALog 2; EALog 1; EALog 1; EALog 1; EALog 1]%nat.
+Lemma entry_list_on_the_rule_slice_refuted :
+  logged_of (eworld_run entries_on_rule_slice ew_sched ew_demo) 1 = [0; 1; 2; 4]%nat /\
+  logged_of (eworld_run entries_on_rule_slice ew_sched ew_demo) 2 = [0; 1; 2; 4]%nat /\
+  logged_of (eworld_run entries_fresh ew_sched ew_demo) 1 = [0; 1; 2; 3]%nat /\
+  logged_of (eworld_run entries_fresh ew_sched ew_demo) 2 = [0; 1; 2; 4]%nat.
+Proof. vm_compute. repeat split; reflexivity. Qed.
